@@ -9,6 +9,7 @@ import os
 
 SAFETY = """  TypeOK NoPanic ParkedCountOK CondvarOK {nostuck} LastParkedUnique FlagProtocol
   StageOrderOK OpenPrefix AllClosedAtGCEnd PacketConservation PacketExactlyOnce RunOnlyOpen
+  SentinelAfterClosure
   STWOnlyWhenStopped BlockedUntilEnd WorldStoppedOnlyInGC
   SurrenderOK ExitClean GoalPriority ExitOnlyOnExitGoal ParkedZeroWhenAllExited"""
 
@@ -93,11 +94,13 @@ MUT = [
     ("NoNotifyMakeRequest", SMALL, {}, "make_request does not notify (worker_monitor.rs:103-105)", "NoStuck"),
     ("LastWaits", SMALL, {}, "last parked worker waits although a goal is pending (scheduler.rs:506-509)", "NoStuck"),
     ("DecSkipped", SMALL, {}, "parked counter not decremented on wake-up (worker_monitor.rs:225)", "ParkedCountOK"),
-    ("FlagNeverCleared", SMALL, {}, "request_flag never cleared (gc_trigger.rs:98 / scheduler.rs:656)", "FlagProtocol"),
-    ("SentinelKept", SMALL, {}, "maybe_schedule_sentinel does not take() the sentinel (work_bucket.rs:281-284)", "PacketConservation"),
-    ("NoDesignatedCheck", SMALL, {}, "find_more_work does not look at designated work (scheduler.rs:537-540)", "StageOrderOK"),
+    ("FlagNeverCleared", LIVE, {}, "request_flag never cleared (gc_trigger.rs:98 / scheduler.rs:656)", "FlagProtocol"),
+    ("SentinelKept", LIVE, {}, "maybe_schedule_sentinel does not take() the sentinel (work_bucket.rs:281-284)", "PacketConservation"),
+    ("NoDesignatedCheck", LIVE, {}, "find_more_work does not look at designated work (scheduler.rs:537-540)", "StageOrderOK"),
     ("OpenAllAtOnce", SMALL, {}, "open condition always true and no break in update_buckets (scheduler.rs:301-316)", "StageOrderOK"),
     ("DisabledBlocks", SMALL, {"InitDisabled": "{4}"}, "a disabled bucket counts as not drained (scheduler.rs:246, work_bucket.rs:173)", "NoPanic"),
+    ("SentinelEager", LIVE, {}, "set_sentinel schedules the packet at once instead of waiting for the drained bucket (work_bucket.rs:255)", "SentinelAfterClosure"),
+    ("OpenBeforeStop", SMALL, {}, "notify_mutators_paused runs before stop_all_mutators has returned (gc_work.rs:221-235)", "STWOnlyWhenStopped"),
     ("NoGoalClearOnExit", FORK, {}, "on_all_workers_exited does not clear the goal (worker_monitor.rs:247)", "NoPanic"),
     ("NoNotifyAllOnExit", FORK, {}, "exit goals answered without WakeAll (scheduler.rs:528-531)", "NoStuck"),
 ]
